@@ -232,7 +232,8 @@ var backgroundSpecifier = regexp.MustCompile(`^&([a-zA-Z_0-9]+&)?$`)
 
 // exec runs the given command.
 func (ts *TestScript) cmdExec(neg bool, args []string) {
-	if len(args) < 1 || (len(args) == 1 && args[0] == "&") {
+	if len(args) < 1 || (len(args) == 1 && backgroundSpecifier.MatchString(args[0])) {
+		// No program: a lone "&" or "&name&" is a background specifier, not a program name.
 		ts.Fatalf("usage: exec program [args...] [&]")
 	}
 
